@@ -153,6 +153,7 @@ def main(argv=None):
         return 2
     props = sorted(PROPS) if argv[0] == 'all' else [argv[0]]
     rc = 0
+    broken = False
     ctx = None
     for p in props:
         if p not in PROPS:
@@ -164,12 +165,12 @@ def main(argv=None):
             rc = max(rc, r)
         except AnalysisError as e:
             print(f"ANALYSIS-ERROR property={p} {e}")
-            return 2
+            broken = True           # with `all`, the remaining properties are still decided
         except Exception:
             traceback.print_exc()
             print(f"ANALYSIS-ERROR property={p} analyser crashed")
-            return 2
-    return rc
+            broken = True
+    return rc if rc else (2 if broken else 0)
 
 
 if __name__ == '__main__':
